@@ -48,6 +48,13 @@ func TestVerifDumpTable(t *testing.T) {
 			}
 		}
 	}
+	for i, l := range precedences {
+		fmt.Printf("PREC %d %s", i, l.Associativity)
+		for h := range l.Handles.All() {
+			fmt.Printf(" [%s]", h.String())
+		}
+		fmt.Println()
+	}
 	for i, p := range productions {
 		fmt.Printf("PROD %d %q", i, string(p.Head))
 		for _, x := range p.Body {
